@@ -144,3 +144,109 @@ func c01Keys(c *mc.Check, maxLen int) {
 }
 
 var _ = strings.TrimSpace
+
+// ---- long lines ----
+
+type c01LongCase struct {
+	ValueLen, NameLen int
+}
+
+func c01LongText(n int, salt int) string {
+	// non-periodic printable content without blanks at the ends
+	var b strings.Builder
+	for i := 0; b.Len() < n; i++ {
+		fmt.Fprintf(&b, "%x.", (i+salt)*2654435761%1000003)
+	}
+	return b.String()[:n]
+}
+
+func c01LongCheck(cs c01LongCase) string {
+	var out bytes.Buffer
+	w := NewWriter(&out)
+	val := c01LongText(cs.ValueLen, 1)
+	name := "X" + c01LongText(cs.NameLen, 7)
+	results := []*Result{
+		{Name: Name("A"), Iters: 1, Values: []Value{{Value: 1, Unit: "u"}}, Config: []Config{{Key: "short", Value: []byte("s"), File: true}}},
+		{Name: Name(name), Iters: 2, Values: []Value{{Value: 2, Unit: "u"}}, Config: []Config{{Key: "short", Value: []byte("s"), File: true}, {Key: "long", Value: []byte(val), File: true}}},
+		{Name: Name("B"), Iters: 3, Values: []Value{{Value: 3, Unit: "u"}}, Config: []Config{{Key: "short", Value: []byte("t"), File: true}, {Key: "long", Value: []byte(val), File: true}}},
+	}
+	for _, r := range results {
+		if err := w.Write(r); err != nil {
+			return err.Error()
+		}
+	}
+	rd := NewReader(bytes.NewReader(out.Bytes()), "back")
+	i := 0
+	for rd.Scan() {
+		switch rec := rd.Result().(type) {
+		case *SyntaxError:
+			return fmt.Sprintf("reading back: %v", rec)
+		case *Result:
+			if i >= len(results) {
+				return "more results read back than written"
+			}
+			want := results[i]
+			if string(rec.Name) != string(want.Name) || rec.Iters != want.Iters {
+				return fmt.Sprintf("result %d read back as %.40q… %d, written %.40q… %d (value of %d bytes, name of %d)", i, rec.Name, rec.Iters, want.Name, want.Iters, cs.ValueLen, len(name))
+			}
+			for _, wc := range want.Config {
+				got := ""
+				for _, c := range rec.Config {
+					if c.Key == wc.Key && c.File {
+						got = string(c.Value)
+					}
+				}
+				if got != string(wc.Value) {
+					return fmt.Sprintf("result %d: key %q read back with a value of %d bytes (%.30q…), written with %d bytes (%.30q…)", i, wc.Key, len(got), got, len(wc.Value), wc.Value)
+				}
+			}
+			i++
+		}
+	}
+	if err := rd.Err(); err != nil {
+		return fmt.Sprintf("reading back: %v", err)
+	}
+	if i != len(results) {
+		return fmt.Sprintf("%d results written, %d read back (value of %d bytes, name of %d)", len(results), i, cs.ValueLen, len(name))
+	}
+	return ""
+}
+
+func c01Long(c *mc.Check) {
+	replay := func(raw json.RawMessage) string {
+		var cs c01LongCase
+		if err := json.Unmarshal(raw, &cs); err != nil {
+			return err.Error()
+		}
+		var msg string
+		if p := mc.Catch(func() { msg = c01LongCheck(cs) }); p != "" {
+			return p
+		}
+		return msg
+	}
+	lens := []int{1, 100, 4000, 4080, 4090, 4095, 4096, 4097, 5000, 8191, 8192, 8193, 9000, 20000, 60000}
+	f := c.Family("long-lines", fmt.Sprintf("three results built through the API whose middle one has a configuration value and / or a benchmark name of %v bytes of non-periodic text (lines around and beyond the reader's 4 KiB buffer, below its 64 KiB line limit), written and read back: names, iteration counts and every file-configuration value equal what was written; non-trivial = lines longer than 4096 bytes", lens), replay)
+	if c.Replaying() {
+		return
+	}
+	for _, vl := range lens {
+		for _, nl := range []int{1, 4096, 6000} {
+			cs := c01LongCase{vl, nl}
+			var msg string
+			if p := mc.Catch(func() { msg = c01LongCheck(cs) }); p != "" {
+				msg = p
+			}
+			nt := int64(0)
+			if vl > 4090 || nl > 4090 {
+				nt = 1
+			}
+			f.Count(1, nt)
+			f.Outcome(fmt.Sprintf("ok=%v", msg == ""), 1)
+			if msg != "" {
+				c.Fail(f, "long-line-roundtrip", cs, msg)
+			}
+		}
+	}
+	f.Sample(c01LongCase{5000, 1})
+	f.Done()
+}
